@@ -29,6 +29,8 @@ pub struct Client {
     pub ibuf: Arc<Mutex<VecDeque<Packet>>>,
     pub obuf: Arc<Mutex<VecDeque<RNotification>>>,
     pub rx: flume::Receiver<()>,
+    /// what an MQTT 5 client keeps: alias -> topic, as announced by the broker's forwards
+    pub aliases: Mutex<std::collections::HashMap<u16, String>>,
 }
 
 pub fn cfg(max_segment_size: usize, max_segment_count: usize, strategy: Strategy) -> RouterConfig {
@@ -61,7 +63,13 @@ pub fn settle(r: &mut Router) {
 }
 
 pub fn connect(r: &mut Router, name: &str, clean: bool) -> Option<Client> {
-    let connection = Connection::new(None, name.to_owned(), clean, false);
+    connect_v5(r, name, clean, 0)
+}
+
+/// an MQTT 5 client that announced Topic Alias Maximum = `alias_max` (0: none), as link/remote.rs sets it up
+pub fn connect_v5(r: &mut Router, name: &str, clean: bool, alias_max: u16) -> Option<Client> {
+    let mut connection = Connection::new(None, name.to_owned(), clean, false);
+    connection.topic_alias_max(alias_max);
     let incoming = Incoming::new(connection.client_id.to_owned());
     let (outgoing, rx) = Outgoing::new(connection.client_id.to_owned());
     let ibuf = incoming.buffer();
@@ -73,7 +81,7 @@ pub fn connect(r: &mut Router, name: &str, clean: bool) -> Option<Client> {
     if !Arc::ptr_eq(&r.obufs.get(id)?.data_buffer, &obuf) {
         return None;
     }
-    Some(Client { id, name: name.to_owned(), ibuf, obuf, rx })
+    Some(Client { id, name: name.to_owned(), ibuf, obuf, rx, aliases: Mutex::new(Default::default()) })
 }
 
 pub fn send(r: &mut Router, c: &Client, packets: Vec<Packet>) {
@@ -654,8 +662,18 @@ fn receive_all(r: &mut Router, c: &Client) -> Vec<(String, String, u8, bool)> {
         }
         let mut acks = vec![];
         for n in batch {
-            if let RNotification::Forward(Forward { publish, .. }) = n {
-                got.push((String::from_utf8_lossy(&publish.topic).to_string(), String::from_utf8_lossy(&publish.payload).to_string(), publish.qos as u8, publish.retain));
+            if let RNotification::Forward(Forward { publish, properties, .. }) = n {
+                // what an MQTT 5 client does with a topic alias: remember it when the topic comes along, use it when not
+                let mut topic = String::from_utf8_lossy(&publish.topic).to_string();
+                if let Some(alias) = properties.as_ref().and_then(|p| p.topic_alias) {
+                    let mut map = c.aliases.lock();
+                    if topic.is_empty() {
+                        topic = map.get(&alias).cloned().unwrap_or_else(|| format!("<unknown alias {}>", alias));
+                    } else {
+                        map.insert(alias, topic.clone());
+                    }
+                }
+                got.push((topic, String::from_utf8_lossy(&publish.payload).to_string(), publish.qos as u8, publish.retain));
                 if publish.qos as u8 == 1 {
                     acks.push(puback(publish.pkid));
                 }
@@ -1492,6 +1510,63 @@ fn repeated_subscription_with_another_qos_is_granted_and_applied() {
     report(name, "C01,C06", "QoS 0/1/2 x QoS 0/1/2 x request parked (caught up) or still tracked x two SUBSCRIBEs in one batch or apart", cases, fail);
 }
 
+/// C01 / C20: an MQTT 5 subscriber that allows topic aliases sees every message under the topic it was published on
+/// (the harness resolves aliases exactly as a client does)
+// @native props=C01,C20 tier=quick fn=Router::forward_device_data (broker topic aliases)+BrokerAliases
+#[test]
+fn subscribers_that_allow_topic_aliases_see_the_original_topics() {
+    let name = "rumqttd::Router::forward_device_data#topic_aliases_preserve_the_topic";
+    let mut cases = 0u64;
+    let mut fail: Option<String> = None;
+    let topics = ["a/1", "a/2", "b"];
+    'outer: for filters in [vec!["a/+"], vec!["#"], vec!["a/1", "a/2"], vec!["a/1", "a/+"], vec!["b", "a/+"]] {
+        for alias_max in [1u16, 2, 10] {
+            for q in 0..2u8 {
+                for code in 0..27usize {
+                    for batched in [false, true] {
+                        cases += 1;
+                        let seq = [topics[code % 3], topics[(code / 3) % 3], topics[code / 9]];
+                        let desc = format!("MQTT 5 subscriber with Topic Alias Maximum {} on {:?} (QoS {}); publishes on {:?} {}", alias_max, filters, q, seq, if batched { "in one batch" } else { "one by one" });
+                        let mut r = new_router();
+                        let s1 = connect_v5(&mut r, "s", true, alias_max).unwrap();
+                        let p = connect(&mut r, "p", true).unwrap();
+                        let fs: Vec<(&str, u8)> = filters.iter().map(|f| (*f, q)).collect();
+                        send(&mut r, &s1, vec![subscribe(1, &fs)]);
+                        let _ = drain(&mut r, &s1);
+                        let pubs: Vec<Packet> = seq.iter().enumerate().map(|(k, t)| publish(t, 0, 0, &format!("m{}", k), false)).collect();
+                        let mut got = vec![];
+                        if batched {
+                            send(&mut r, &p, pubs);
+                        } else {
+                            for x in pubs {
+                                send(&mut r, &p, vec![x]);
+                                got.extend(receive_all(&mut r, &s1));
+                            }
+                        }
+                        got.extend(receive_all(&mut r, &s1));
+                        let mut got: Vec<(String, String)> = got.into_iter().map(|g| (g.1, g.0)).collect();
+                        got.sort();
+                        let mut want: Vec<(String, String)> = vec![];
+                        for (k, t) in seq.iter().enumerate() {
+                            for f in filters.iter() {
+                                if ref_matches(t, f) {
+                                    want.push((format!("m{}", k), t.to_string()));
+                                }
+                            }
+                        }
+                        want.sort();
+                        if got != want {
+                            fail = Some(format!("input=[{}] detail=[(payload, topic as the client sees it) {:?}, expected {:?}]", desc, got, want));
+                            break 'outer;
+                        }
+                    }
+                }
+            }
+        }
+    }
+    report(name, "C01,C20", "5 filter sets (wildcard, literal, overlapping) x Topic Alias Maximum 1/2/10 x QoS 0/1 x all 27 sequences of 3 publishes over 3 topics x batched / one by one", cases, fail);
+}
+
 /// C01/C09: outgoing-buffer-full back-pressure (Unschedule -> Busy -> Ready) neither loses nor repeats messages
 // @native props=C01,C09 tier=quick fn=Router::{consume,forward_device_data}+Outgoing::push_forwards (BufferFull path)
 #[test]
@@ -1939,7 +2014,7 @@ pub fn connect_with_will(r: &mut Router, name: &str, clean: bool, will: Option<(
     r.events(0, Event::Connect { connection, incoming, outgoing });
     settle(r);
     let id = *r.connection_map.get(name)?;
-    Some(Client { id, name: name.to_owned(), ibuf, obuf, rx })
+    Some(Client { id, name: name.to_owned(), ibuf, obuf, rx, aliases: Mutex::new(Default::default()) })
 }
 
 // @native props=C16 tier=quick fn=Router::{handle_last_will,handle_new_connection,handle_device_payload(Disconnect)}
